@@ -52,13 +52,14 @@ static Verdict check_coherence(const Case& c) {
   const VfUnitType* U = utype(nt, k);
   auto di = g_dims.find(U->name); auto ci = g_consistent.find(U->name);
   if (di == g_dims.end() || ci == g_consistent.end()) return Verdict::skip("no-system-data");
-  if (std::string(U->name) == "Temperature") { Verdict V; V.cls = "temperature-scale-not-a-product-of-base-units"; return V; }   // affine scales: the coherent statement is about intervals (TemperatureDifference)
+  auto& facs = g_factors[U->name];
   const std::vector<int>& d = di->second;
   long evals = 0, nontriv = 0;
   for (auto& S : g_sys) {
     auto cu = ci->second.find(S.name); if (cu == ci->second.end()) continue;
     int idx = -1; for (int i = 0; i < U->n; i++) if (U->unit_values[i] == cu->second) idx = i;
     if (idx < 0 || U->standard < 0) return Verdict::fail(fmt("%s: the consistent unit of system %s is not a declared enumerator", U->name, S.name.c_str()));
+    { auto fi = facs.find(cu->second); if (fi != facs.end() && fi->second.affine) continue; }   // an affine scale (degC, degF) is not a product of base units; K and degR are
     const Q factor = ipow(S.T, d[0]) * ipow(S.L, d[1]) * ipow(S.M, d[2]) * ipow(S.H, d[4]);
     const Q exact_to = (Q)x * factor, exact_from = (Q)x / factor;
     if (in_normal_range(nt, exact_to) && in_normal_range(nt, (Q)x)) {
